@@ -330,7 +330,20 @@ func (p *Party) AwaitWatched(id channel.ID) bool {
 
 // Ctx returns a context with the party's generous operation timeout.
 func (p *Party) Ctx() (context.Context, context.CancelFunc) {
-	return context.WithTimeout(context.Background(), p.Timeout)
+	p.mu.Lock()
+	d := p.Timeout
+	p.mu.Unlock()
+	return context.WithTimeout(context.Background(), d)
+}
+
+// SetTimeout changes the patience of the party's further calls.
+func (p *Party) SetTimeout(d time.Duration) { p.mu.Lock(); p.Timeout = d; p.mu.Unlock() }
+
+// AcceptErrors returns the errors of the party's Accept calls on proposals so far.
+func (p *Party) AcceptErrors() []error {
+	p.mu.Lock()
+	defer p.mu.Unlock()
+	return append([]error(nil), p.AcceptErrs...)
 }
 
 // Channel returns the party's channel object for id.
